@@ -412,7 +412,7 @@ theorem nodup_lstr_of_upper (u : UC) : ∀ (l : List Name), (l.map u.upper).Nodu
 
 theorem attrNames_lstr_nodup (u : UC) (m : MM) (hm : m.Closed u) (c : ClassM) (hc : c ∈ m.classes) :
     ((toLAttrs u c.attrs).map (fun x => x.1)).Nodup := by
-  have h := (attrNamesOk_iff u c.attrs).mp (hm.attrNames c hc)
+  have h := ((attrNamesOk_iff u c.attrs).mp (hm.attrNames c hc)).1
   have e1 : c.attrs.map (fun a => u.upper a.1) = (c.attrs.map (fun a => a.1)).map u.upper := by rw [List.map_map]; rfl
   have e2 : (toLAttrs u c.attrs).map (fun x => x.1) = (c.attrs.map (fun a => a.1)).map lstr := by
     simp only [toLAttrs, List.map_map]; rfl
